@@ -99,3 +99,10 @@ _d = dict([u for u in UNITS if u['name'] == 'C20.dispatch'][0])
 _d.update(name='C20.found', defines=['VERIF_CHECK_FOUND'], must_have=['postE found_object iff'], want_trace=False, expect_s=90,
           functions=[dict(name='_dbus_object_tree_dispatch_and_unlock', file=OT, status='bounded', contract='found_object iff the path is a node of the registered tree or lies below a REGISTERED fallback handler (property C20: UnknownMethod vs UnknownObject)')] + _d['functions'][1:])
 UNITS.append(_d)
+
+UNITS.append(dict(name='C20.list_lookup', props=['C20'], kind='P', route='stub', entry='harness',
+    tus=[dict(file='dbus/dbus-object-tree.c', include_as='VERIF_TU')], harness='harness/c20_listlookup.c',
+    replace_calls={'find_subtree_recurse': 'verif_stub_fsr'}, timeout=300, expect_s=5, must_have=['listlk.post1', 'listlk.post2'],
+    functions=[dict(name='_dbus_object_tree_list_registered_unlocked (+ lookup_subtree)', file='dbus/dbus-object-tree.c', status='enforced', contract='the parent path is resolved by one exact lookup from the root; not a node => empty listing'),
+               dict(name='find_subtree_recurse', file='dbus/dbus-object-tree.c', status='replaced', note='every call bound to a logging stub (its own contract: C20.find); this unit does not depend on the lexical renaming used by the other C20 units')],
+    assumptions=[]))
